@@ -123,11 +123,15 @@ def plan(pid, tier, seed):
         ns = 1 if q else NSHARD_THOROUGH
         jobs = [{"engine": "borrow", "name": f"borrow-{i}", "args": ["--seed", seed * 131 + i * 7 + 3, "--count", n // ns, "--len", 16 if i % 2 == 0 else 30]}
                 for i in range(ns)]
+        # the array accessors (`query_many_mut`, `get_many_mut` of the three view kinds) hand out several unique
+        # references at once; their refusal of a repeated handle is part of this property
+        jobs += world_jobs(["query"], tier, seed + 5, 120, 20000)
         return {"jobs": jobs, "nontrivial_min_lines": 6,
                 "rule": "one case = one guard script (8-45 actions: create query/view/prepared/single-entity/Ref/RefMut/column guards, "
                         "iterate, get, with/without, clone, drop in any order) over a seeded world with empty and non-empty archetypes; "
                         "distinct = distinct script seed; non-trivial = at least 5 actions",
-                "trusted_base": ["hooked raw borrow words (verif_dump)", "guard menu: 12 query types x 8 guard kinds + Ref/RefMut/Column(Mut) on 3 component types"],
+                "trusted_base": ["hooked raw borrow words (verif_dump)", "guard menu: 15 query types (3 derived) x 8 guard kinds + Ref/RefMut/Column(Mut) on 3 component types",
+                                 "world engine, query profile: query_many_mut / get_many_mut with 2..6 handles, 12% with a repeated handle"],
                 "assumptions": ["Archetype::get::<&mut T>() borrows the named column even on an empty archetype (interpretive choice, DESIGN §5.C05)"]}
     if pid == "C06":
         jobs = []
